@@ -8,7 +8,7 @@ mkdir -p $out; res=$out/$name.txt; : > $res
 wt=/tmp/evalwt-$name
 git -C /repo worktree remove --force $wt >/dev/null 2>&1
 git -C /repo worktree add --detach $wt HEAD -q || { echo "worktree failed" >> $res; exit 2; }
-if ! git -C $wt apply "$d/patch.diff" 2>>$res; then echo "PATCH DOES NOT APPLY" >> $res; git -C /repo worktree remove --force $wt; exit 2; fi
+if ! git -C $wt apply "$d/patch.diff" 2>>$res && ! git -C $wt apply --3way "$d/patch.diff" 2>>$res; then echo "PATCH DOES NOT APPLY" >> $res; git -C /repo worktree remove --force $wt; exit 2; fi
 t=$(cd $wt && /venv/bin/python -m pytest -q -p no:cacheprovider auth/test/test_auth_utils.py 2>&1 | tail -1)
 echo "pinned: $t" >> $res
 export PYTHONDONTWRITEBYTECODE=1
